@@ -47,6 +47,9 @@ type Spec struct {
 	// Resync, when set, makes this a case of the resync stream (resync.go): one stub
 	// value registering several times; the fields above are then unused.
 	Resync *ResyncSpec `json:"resync,omitempty"`
+	// StallS is set by the driver: seconds without a Synchronize message and without a result after
+	// which a synchronisation counts as stalled (driver.go: stallBound).
+	StallS int `json:"stall_s,omitempty"`
 }
 
 func (s *Spec) expand() {
@@ -101,6 +104,14 @@ type Obs struct {
 	// the plugin end's registration call returned an error after the runtime had already reported
 	// a failed synchronisation (see errRegister)
 	RegReplyLost bool `json:"reg_reply_lost,omitempty"`
+	// Usable: after the registration the runtime's plugin-sync lock was free again (BlockPluginSync
+	// returned within UsableBoundS seconds), i.e. the next plugin can register
+	Usable       bool `json:"usable"`
+	UsableBoundS int  `json:"usable_bound_s,omitempty"`
+	StallS       int  `json:"stall_s,omitempty"` // stalled: the bound that was applied
+	// Exit: goroutines of the implementation are left spinning or blocked in this process; the worker
+	// exits after this reply and the driver starts a fresh one
+	Exit bool `json:"exit,omitempty"`
 }
 
 const (
@@ -203,6 +214,7 @@ func maxMsgLen() int { return (&ttrpc.OversizedMessageErr{}).MaximumLength() }
 // recorder is shared by both plugin ends.
 type recorder struct {
 	sync.Mutex
+	last     time.Time // arrival of the latest Synchronize message
 	sp       *Spec
 	bound    int
 	msgs     []Msg
@@ -215,6 +227,7 @@ type recorder struct {
 func (r *recorder) record(req *api.SynchronizeRequest) (n int, over bool) {
 	r.Lock()
 	defer r.Unlock()
+	r.last = time.Now()
 	if len(r.msgs) >= r.bound {
 		r.livelock = true
 		return len(r.msgs) + 1, true
@@ -405,6 +418,68 @@ func startStub(sock string, rec *recorder) (func(), error) {
 	return st.Stop, nil
 }
 
+// ---------------------------------------------------------------- watching a registration
+
+// waitSync waits for the result the runtime's sync call-back reports.  stalled = neither a result nor a
+// new Synchronize message at the plugin end for the whole bound (the runtime is still inside synchronize).
+func waitSync(done chan syncResult, lastMsg func() time.Time, bound time.Duration) (res syncResult, stalled bool) {
+	start := time.Now()
+	tick := time.NewTicker(100 * time.Millisecond)
+	defer tick.Stop()
+	for {
+		select {
+		case res = <-done:
+			return res, false
+		case <-tick.C:
+			ref := lastMsg()
+			if ref.Before(start) {
+				ref = start
+			}
+			if time.Since(ref) > bound {
+				return res, true
+			}
+		}
+	}
+}
+
+// wedges counts, in this worker, registrations after which the plugin-sync lock was not released.
+var wedges int
+
+// usableBound: the lock is released a few instructions after the sync call-back returns; the first
+// three misses get 15 s each, later ones 3 s.
+func usableBound() time.Duration {
+	if wedges < 3 {
+		return 15 * time.Second
+	}
+	return 3 * time.Second
+}
+
+// syncLockFree says whether BlockPluginSync returns within the bound: registration is finished (plugin
+// appended or dropped) and the next plugin can register once the sync lock is free again.  A goroutine
+// stays blocked in this process when it does not (it holds nothing).
+func syncLockFree(r *adaptation.Adaptation) (bool, int) {
+	bound := usableBound()
+	free := make(chan struct{})
+	go func() {
+		r.BlockPluginSync().Unblock()
+		close(free)
+	}()
+	select {
+	case <-free:
+		return true, int(bound.Seconds())
+	case <-time.After(bound):
+		wedges++
+		return false, int(bound.Seconds())
+	}
+}
+
+func stallOf(s int) time.Duration {
+	if s <= 0 {
+		s = 240
+	}
+	return time.Duration(s) * time.Second
+}
+
 // ---------------------------------------------------------------- one case
 
 type syncResult struct {
@@ -442,7 +517,12 @@ func runCase(dir string, k int, sp *Spec) (*Obs, error) {
 	if err := r.Start(); err != nil {
 		return nil, fmt.Errorf("adaptation.Start: %w", err)
 	}
-	defer r.Stop()
+	poisoned := false // a goroutine of the runtime is left spinning: no orderly shutdown, the worker exits
+	defer func() {
+		if !poisoned {
+			r.Stop()
+		}
+	}()
 	// the pre-installed (none) plugins were synchronised by Start: drop that result
 	select {
 	case <-done:
@@ -450,6 +530,16 @@ func runCase(dir string, k int, sp *Spec) (*Obs, error) {
 	}
 
 	rec := &recorder{sp: sp, bound: 2*(len(pods)+len(ctrs)) + 1}
+	lastMsg := func() time.Time {
+		rec.Lock()
+		defer rec.Unlock()
+		return rec.last
+	}
+	cleanup := func(stop func()) {
+		if !poisoned && stop != nil {
+			stop()
+		}
+	}
 	var stop func()
 	if sp.Plugin == "stub" {
 		stop, err = startStub(sock, rec)
@@ -461,7 +551,7 @@ func runCase(dir string, k int, sp *Spec) (*Obs, error) {
 		if !errors.Is(err, errRegister) {
 			return nil, fmt.Errorf("plugin start: %w", err)
 		}
-		defer stop()
+		defer cleanup(stop)
 		select {
 		case res = <-done:
 			if res.err == nil {
@@ -472,11 +562,22 @@ func runCase(dir string, k int, sp *Spec) (*Obs, error) {
 			return nil, fmt.Errorf("plugin start: %w (and no synchronisation result)", err)
 		}
 	} else {
-		defer stop()
-		res = <-done // the parent's watchdog bounds this wait
+		defer cleanup(stop)
+		var stalled bool
+		if res, stalled = waitSync(done, lastMsg, stallOf(sp.StallS)); stalled {
+			// the runtime is still inside synchronize: nothing more can be asked of it
+			poisoned = true
+			rec.Lock()
+			o.Msgs = append(o.Msgs, rec.msgs...)
+			o.HandlerCalls, o.HandlerPodRuns, o.HandlerCtrRuns = rec.calls, rec.hpr, rec.hcr
+			rec.Unlock()
+			o.Outcome, o.StallS, o.Exit = "stalled", int(stallOf(sp.StallS).Seconds()), true
+			o.Millis = time.Since(t0).Milliseconds()
+			return o, nil
+		}
 	}
 	// registration is finished (plugin appended or dropped) once the sync lock is free again
-	r.BlockPluginSync().Unblock()
+	o.Usable, o.UsableBoundS = syncLockFree(r)
 	ctx, cancel := context.WithTimeout(context.Background(), regTimeout)
 	perr := r.RunPodSandbox(ctx, &api.StateChangeEvent{Pod: &api.PodSandbox{Id: "probe"}})
 	cancel()
@@ -540,10 +641,11 @@ func workerMain() {
 		}
 		var probe struct {
 			Resync *ResyncSpec `json:"resync"`
+			StallS int         `json:"stall_s"`
 		}
 		if e := json.Unmarshal(line, &probe); e == nil && probe.Resync != nil {
 			probe.Resync.expand()
-			o, e := runResync(dir, k, probe.Resync)
+			o, e := runResync(dir, k, probe.Resync, stallOf(probe.StallS))
 			if e != nil {
 				reply.Error = e.Error()
 			} else {
@@ -564,6 +666,10 @@ func workerMain() {
 		out.Write(js)
 		out.WriteByte('\n')
 		out.Flush()
+		if (reply.Obs != nil && reply.Obs.Exit) || (reply.RObs != nil && reply.RObs.Exit) {
+			os.RemoveAll(dir)
+			os.Exit(0)
+		}
 		if err != nil {
 			break
 		}
